@@ -362,7 +362,7 @@ class MinMaxAggregator:
                 )
             )
         for bound in analytics.bounds:
-            body.append(Literal(LOC, Sign.NoSign, Comparison(max_var, [bound])))
+            body.append(Literal(LOC, agg.sign, Comparison(max_var, [bound])))
         body.extend(lits_without_vars)
         ret.append(rule.update(body=body))
         if rule.ast_type == ASTType.Rule:
@@ -379,6 +379,11 @@ class MinMaxAggregator:
                 "inside min/max aggregate are not yet supported. See #9."
             )
             return [rule]
+        if agg.sign != Sign.NoSign:
+            # the result atom is positive, a negated aggregate can only be expressed by negating its single bound
+            analytics = AggAnalytics(agg.atom)
+            if analytics.equal_variable_bound or len(analytics.bounds) != 1:
+                return [rule]
         number_of_aggregate = 0
         assert len(agg.atom.elements) == 1
         elem = agg.atom.elements[0]
